@@ -145,6 +145,20 @@ Fixpoint collect_functions (s : store) (c : ctx) (n : str) : list (list fdef) :=
       end in
   match fs with [] => rest | _ => fs :: rest end.
 
+(* collect_functions(name, predicate): the predicate filters the overloads of each layer; whether the walk stops
+   at a layer depends only on the layer's exclusivity, not on what the predicate leaves of it *)
+Fixpoint collect_pred (pred : fdef -> bool) (s : store) (c : ctx) (n : str) : list (list fdef) :=
+  let '(fs, ex) := get_functions s c n in
+  let rest :=
+    if ex then [] else
+      match c with
+      | CPlain _ (Some p) => collect_pred pred s p n
+      | CMulti _ (Some p) => collect_pred pred s p n
+      | CLinked _ (Some p) => collect_pred pred s p n
+      | _ => []
+      end in
+  match filter pred fs with [] => rest | fs' => fs' :: rest end.
+
 (* ---- writes --------------------------------------------------------------- *)
 Inductive outcome := Done | KeyErr | Crash.
 
@@ -326,6 +340,10 @@ Definition observe_ctx (s : store) (names fnames : list str) (c : ctx) : list Z 
   ++ flat_map (fun n => let '(fs, ex) := get_functions s c n in
                         [3000%Z] ++ ser_fids fs ++ [if ex then 1%Z else 0%Z]
                         ++ [4000%Z] ++ (let ls := collect_functions s c n in
+                                        Z.of_nat (length ls) :: flat_map ser_fids ls)
+                        ++ [5000%Z] ++ (let ls := collect_pred (fun f => Z.even (snd f)) s c n in
+                                        Z.of_nat (length ls) :: flat_map ser_fids ls)
+                        ++ [6000%Z] ++ (let ls := collect_pred (fun f => Z.odd (snd f)) s c n in
                                         Z.of_nat (length ls) :: flat_map ser_fids ls)) fnames.
 
 Definition observe (x : state) (names fnames : list str) : list Z :=
